@@ -475,7 +475,7 @@ PyObject* py_zoom_shift(PyObject* self, PyObject* args) {
     double cval;
     if (!PyArg_ParseTuple(args,"OOOOiid", &array, &zooms, &shifts, &output, &order, &mode, &cval)) return NULL;
     if (!numpy::are_arrays(array, output) ||
-        !PyArray_ISCARRAY(array) || !PyArray_ISCARRAY(output) ||
+        !PyArray_ISCARRAY_RO(array) || !PyArray_ISCARRAY(output) ||
         !numpy::equiv_typenums(array, output)) {
         PyErr_SetString(PyExc_RuntimeError, "mahotas.zoom_shift: input data has unexpected types. This may be a bug in mahotas.");
         return NULL;
